@@ -184,16 +184,20 @@ func min[T constraints.Integer](v1, v2 T) T {
 func intersect[T constraints.Integer](intv Interval[T], inters []Interval[T]) ([]Interval[T], int) {
 	intvs := make([]Interval[T], 0, 1)
 
+	// cnt is number of intervals in inters which end in front of intv end.
+	// Only those cannot intersect any interval following intv.
 	var cnt int
 	for _, inter := range inters {
-		cnt++
+		if intv.End() <= inter.Begin() {
+			break
+		}
+
+		if inter.End() <= intv.End() {
+			cnt++
+		}
 
 		if inter.End() <= intv.Begin() {
 			continue
-		}
-
-		if intv.End() <= inter.Begin() {
-			break
 		}
 
 		begin := max(intv.Begin(), inter.Begin())
@@ -201,7 +205,7 @@ func intersect[T constraints.Integer](intv Interval[T], inters []Interval[T]) ([
 		intvs = append(intvs, New(begin, end))
 	}
 
-	return intvs, cnt - 1
+	return intvs, cnt
 }
 
 func MapIntersect[T constraints.Integer](i1, i2 Map[T]) Map[T] {
